@@ -397,6 +397,18 @@ def call(ex, n, st, q, rd, objn, argn, method, want_lv):
         raise ExtractionError(f'{ex.unit}: std::vector::{name} not modelled')
     if kind == 'stdarray':
         o = ex.ev_obj(objn, st)
+        if isinstance(o, ObjRef) and (o.name in st.length or (o.name, '') in st.arr):
+            # a numeric std::array held as a region (built from an initialiser list, copied from one, or declared by the spec)
+            ect = st.leafct.get((o.name, '')) or parse_type_str('unsigned long long')
+            if name in ('operator[]', 'at'):
+                i = ex.ev(argn[0], st)
+                return LElem(o.name, i.t, '', ect, checked=True)
+            if name in ('data', 'begin'):
+                return PtrV(o.name, I(0), ect)
+            if name == 'end':
+                return PtrV(o.name, st.len_of(o.name), ect)
+            if name == 'size':
+                return IntV(st.len_of(o.name), ULONG)
         if name in ('operator[]', 'at'):
             i = ex.ev(argn[0], st)
             s = z3.simplify(i.t)
@@ -1066,6 +1078,34 @@ def default_construct(ex, st, d, ct):
 
 
 def from_initlist(ex, st, d, ct, items):
+    import re as _re
+    if class_kind(ct.name) == 'stdarray':
+        # std::array<T,N> x{{a, b, ...}}: the given elements, the remaining ones value-initialised
+        m = _re.search(r'std::array<(.*),\s*(\d+)\s*>\s*$', strip_quals(ct.name))
+        if m:
+            n_ = int(m.group(2))
+            ect = parse_type_str(m.group(1).strip())
+            flat = []
+
+            def fl(v):
+                if isinstance(v, list):
+                    for x in v:
+                        fl(x)
+                else:
+                    flat.append(v)
+            fl(items)
+            if ect.kind in ('int', 'float') and len(flat) <= n_ and all(isinstance(v, (IntV, RealV)) for v in flat):
+                region = f'local:{d.get("name")}'
+                st.length[region] = I(n_)
+                for key in list(st.arr):
+                    if key[0] == region:
+                        del st.arr[key]
+                arr = z3.K(z3.IntSort(), z3.RealVal(0) if ect.kind == 'float' else z3.IntVal(0))
+                for i_, v in enumerate(flat):
+                    arr = z3.Store(arr, i_, real(v) if ect.kind == 'float' else v.t)
+                st.arr[(region, '')] = arr
+                st.leafct[(region, '')] = ect
+                return ObjRef(region, ct.name)
     raise ExtractionError(f'{ex.unit}: initializer list for {ct.name}')
 
 
